@@ -1698,6 +1698,21 @@ class C07(Prop):
                 cons = ["err:0", "msgsub:0:" + hx("gone"), "line:0:2", "nopanic"]
             files = [("tpl/page.tw", "file", page), ("tpl/components/card.tw", "file", csrc)]
             lines.append(tree_case("C07:e%d" % i, files, [op_new("tpl", ".tw")], cons))
+        # a use written inside the slot body of another use (to any depth, inside @each / @if there) gets its own file,
+        # arguments and slots like any other use; a use written in a component FILE is not resolved (stated by no
+        # property: model = implementation there)
+        comps = [("tpl/components/a.tw", "file", "[@slot]"), ("tpl/components/b.tw", "file", "<{{ x }}:@slot('s')>"),
+                 ("tpl/components/c.tw", "file", "C{{ y }}"), ("tpl/components/d.tw", "file", "D@component('~c', {y: 9})")]
+        NEST = [("@component('~a')@slot@component('~c', {y: 1})@end@end", "[C1]"),
+                ("@component('~a')@slot<p>@component('~b', {x: 2})@slot('s')@component('~c', {y: 3})@end@end<q>@end@end", "[<p><2:C3><q>]"),
+                ("@component('~a')@slot@each(i in [1, 2])@component('~c', {y: i})@end@end@end", "[C1C2]"),
+                ("@component('~a')@slot@component('~c', {y: 1})@end@end|@component('~a')@slot@component('~c', {y: 2})@end@end", "[C1]|[C2]"),
+                ("@component('~a')@slot@if(flag)@component('~b', {x: n})@slot('s')@component('~a')@slot@component('~c', {y: n})@end@end@end@end@end@end@end", "[<3:[C3]>]"),
+                ("@each(i in [1, 2])@component('~b', {x: i})@slot('s')@component('~c', {y: i + 1})@end@end@end", "<1:C2><2:C3>"),
+                ("@component('~d')", None)]
+        for j, (page, out) in enumerate(NEST):
+            cons = ["ok:0", "nopanic"] + (["out:1:" + hx(out)] if out is not None else [])
+            lines.append(tree_case("C07:n%d" % j, [("tpl/page.tw", "file", page)] + comps, [op_new("tpl", ".tw"), op_string("page", TREE_DATA)], cons))
         return lines, {"exhaustive": False, "distribution": {"pages": n}}
 
 
